@@ -23,7 +23,7 @@ EXPLANATION = ('hazan_peng_shashua run to (tested) convergence; (a) returned tab
 TOTALS = [0.5, 1.0, 10.0, 1000.0]
 DAMPINGS = [0.05, 0.1, 0.3, 0.5, 0.5, 0.7, 0.9, 0.95]
 SCHEDULE = [50, 50, 100, 200, 400, 800, 1600, 3200, 6400]
-KINDS = ['chain', 'star', 'fgtree', 'rip', 'loop', 'loop', 'dense', 'dense', 'arbitrary', 'nested', 'sameset']
+KINDS = ['chain', 'star', 'fgtree', 'rip', 'loop', 'loop', 'dense', 'dense', 'arbitrary', 'nested', 'sameset', 'deep']
 
 
 # ---------------------------------------------------------------------------------------------
@@ -149,15 +149,20 @@ def make_case(r, max_cells):
 
 
 def solve(dom, cl, total, damping, minimal, fpots, cap):
-    rg = rggen.build_rg(dom, cl, total, convex=True, minimal=minimal, iters=SCHEDULE[0], convergence=1e-6 * total, damping=damping)
+    # a third of the objects start with another damping value, which is re-assigned on the live object after the first call
+    # (LocalInference does this when the loss rises late: model.damping = (0.9 + model.damping)/2)
+    first = (0.9 + damping) / 2.0 if int(damping * 1000) % 3 == 0 else damping
+    rg = rggen.build_rg(dom, cl, total, convex=True, minimal=minimal, iters=SCHEDULE[0], convergence=1e-6 * total, damping=first)
     size = dict(map(tuple, dom))
     cv = rggen.impl_cv(fpots)
     calls, used = [], 0
-    for it in SCHEDULE:
+    for ci, it in enumerate(SCHEDULE):
         if used >= cap:
             break
         it = min(it, cap - used)
         rg.iters = it
+        if ci == 1:
+            rg.damping = damping
         cnt = [0]
         with np.errstate(all='ignore'):
             mu = rg.belief_propagation(cv, callback=lambda m: cnt.__setitem__(0, cnt[0] + 1))
@@ -165,7 +170,7 @@ def solve(dom, cl, total, damping, minimal, fpots, cap):
         tab = rggen.table(mu)
         errs = edge_errors(rg, tab, size)
         pf = sum(errs) / len(errs) if errs else 0.0
-        calls.append({'iters': it, 'sweeps': cnt[0], 'tab': tab, 'pf_impl': pf_impl, 'pf': pf, 'errs': errs})
+        calls.append({'iters': it, 'sweeps': cnt[0], 'tab': tab, 'pf_impl': pf_impl, 'pf': pf, 'errs': errs, 'damping': float(rg.damping)})
         used += cnt[0]
         if pf <= 1e-6 * total:
             break
@@ -200,7 +205,7 @@ def check(res, drv_resp, cert_resp, case, rg, calls, used, size, fpots, pots, r_
     if bad:
         mm0 = rggen.max_abs_message(rg)
         res.violation('failing-input', f'hazan_peng_shashua: {bad}; largest |message| {mm0:.3e}', rp,
-                      key='hps:not-normalised' + (':diverged-messages' if not (mm0 < rggen.DIVERGED) else ''))
+                      key='hps:not-normalised' + (':diverged-messages' if rggen.explained_by_message_growth(tab, total, mm0) else ''))
         ok = False
     # the implementation's own feasibility figure (it compares flat vectors without aligning attribute orders)
     if not close(last['pf_impl'], last['pf'], 1e-6, 1e-9 * total):
@@ -216,7 +221,8 @@ def check(res, drv_resp, cert_resp, case, rg, calls, used, size, fpots, pots, r_
         res.violation('failing-input',
                       f'convergence test: hazan_peng_shashua with damping {damping} did not reach feasibility 1e-6*total within {used} sweeps (cap {cap}): '
                       f'mean edge disagreement {last["pf"]!r}, total {total}, largest |message| {maxmsg:.3e}, cliques {cl}', rp,
-                      key='hps:no-convergence' + (':diverged-messages' if not (maxmsg < rggen.DIVERGED) else ''))
+                      key='hps:no-convergence' + (':low-damping' if damping <= 0.1 else ':diverged-messages' if not (maxmsg < rggen.DIVERGED) else ''))
+        ok = False          # the optimality clauses are about the converged state: nothing further is claimed for this run
     if ok and lag > 1e-9 * total and maxmsg < 1e12:
         res.violation('correspondence', f'hazan_peng_shashua: returned tables differ from total*softmax(pot + sum child messages - sum parent messages) '
                       f'by {lag!r} (total {total})', dict(rp, stream='C17.lagrangian'), key='hps:lagrangian-form')
@@ -275,7 +281,7 @@ def check(res, drv_resp, cert_resp, case, rg, calls, used, size, fpots, pots, r_
                               dict(rp, stream='C17.hps_cert'), key='hps:lagrangian-form')
             elif not (close(LD, D, 1e-9, 1e-9) and close(LF, F, 1e-9, 1e-9)):
                 res.violation('correspondence', f'certificate: Lean dual/primal {LD!r}/{LF!r}, numpy {D!r}/{F!r}', dict(rp, stream='C17.hps_cert'), key='hps:certificate-mismatch')
-            elif ok and abs(LD - LF) > tolD:
+            elif ok and converged and abs(LD - LF) > tolD:
                 res.violation('failing-input', f'convergence test (Lean certificate): gap {LD - LF!r} exceeds {tolD!r} after {used} sweeps', rp, key='hps:gap')
     # (d) model
     if drv_resp is None:
@@ -325,9 +331,12 @@ def run(res, drv, tier, seed):
     plan += [(None, cap, r)] * n
     caps = []
     for case, ccap, r in plan:
+        generated = case is None
         case = case or make_case(r, max_cells)
-        caps.append(ccap)
         dom, cl, kind, total, damping, minimal = case
+        if generated and tier == 'quick' and damping <= 0.1:
+            ccap = min(ccap, 800)       # nearly undamped runs that do not converge (recorded finding) are not pursued to the full cap in the quick tier
+        caps.append(ccap)
         probe = rggen.build_rg(dom, cl, total, convex=True, minimal=minimal)
         pots = rggen.gen_pots(r, dom, list(probe.cliques), transposed=0.3 if r.random() < 0.25 else 0.0)
         fpots = rggen.pots_float(pots)
@@ -335,7 +344,7 @@ def run(res, drv, tier, seed):
         work.append((case, rg, calls, used, size, fpots, pots))
         reqs.append(cert_request(dom, rg, total, fpots, calls[-1]['tab'], size))
         reqs.append({'op': 'hps', 'dom': dom, 'rg': rggen.slim_rg(rggen.export_rg(rg)), 'total': enc_f(total), 'damping': enc_f(damping),
-                     'convergence': enc_f(rg.convergence), 'calls': [{'iters': c['iters'], 'pots': rggen.enc_fpots(fpots)} for c in calls]})
+                     'convergence': enc_f(rg.convergence), 'calls': [{'iters': c['iters'], 'pots': rggen.enc_fpots(fpots), 'damping': enc_f(c['damping'])} for c in calls]})
     resps = drv.run(reqs, timeout=3000) if drv else [None] * (2 * len(work))
     r_aux = rng(seed, 'C17-aux')
     for i, (case, rg, calls, used, size, fpots, pots) in enumerate(work):
@@ -357,5 +366,5 @@ def replay(res, drv, rp):
     if drv:
         cert = drv.one(cert_request(dom, rg, total, fpots, calls[-1]['tab'], size))
         resp = drv.one({'op': 'hps', 'dom': dom, 'rg': rggen.slim_rg(rggen.export_rg(rg)), 'total': enc_f(total), 'damping': enc_f(damping),
-                        'convergence': enc_f(rg.convergence), 'calls': [{'iters': c['iters'], 'pots': rggen.enc_fpots(fpots)} for c in calls]})
+                        'convergence': enc_f(rg.convergence), 'calls': [{'iters': c['iters'], 'pots': rggen.enc_fpots(fpots), 'damping': enc_f(c['damping'])} for c in calls]})
     check(res, resp, cert, (dom, cl, 'replay', total, damping, minimal), rg, calls, used, size, fpots, pots, rng(0, 'C17-aux'), cap)
